@@ -151,6 +151,13 @@ pub fn run(ctx: &Ctx) -> i32 {
                 rep.count("emitter_self_check_failed");
                 continue;
             };
+            // the deprecated spelling of the string cast, in keys and in the condition
+            let text = if text.contains("str(") && rng.chance(30) {
+                rep.count("deprecated_string_spelling");
+                text.replace("str(", "string(")
+            } else {
+                text
+            };
             let orig_value: Y = serde_yaml::from_str(&text).unwrap();
             let rule = match eng::load(&text) {
                 Ok(Load::Ok(r)) => *r,
@@ -299,7 +306,7 @@ pub fn run(ctx: &Ctx) -> i32 {
         ctx,
         rep,
         Meta {
-            rule: format!("generated rules enriched with {} quoting-sensitive scalars in string positions (patterns, quotes, numbers-as-strings, YAML indicators, empty, non-ASCII), identifier names that look like other YAML kinds, examples with nested containers; each rule (unoptimised and after four optimisation switch sets) is serialised with serde_yaml and reloaded: it must load, carry the same condition text / identifier YAML / examples, parse to the same expressions as the original unoptimised rule and give the same verdicts on generated documents; from_str and from_value must agree before and after. non-trivial = rule containing at least one quoting-sensitive scalar; distinct by (set of such scalars, optimised?)", QUOTING.len()),
+            rule: format!("generated rules enriched with {} quoting-sensitive scalars in string positions (patterns, quotes, numbers-as-strings, YAML indicators, empty, non-ASCII), identifier names that look like other YAML kinds, the deprecated `string(` spelling of the cast, examples with nested containers; each rule (unoptimised and after four optimisation switch sets) is serialised with serde_yaml and reloaded: it must load, carry the same condition text / identifier YAML / examples, parse to the same expressions as the original unoptimised rule and give the same verdicts on generated documents; from_str and from_value must agree before and after. non-trivial = rule containing at least one quoting-sensitive scalar; distinct by (set of such scalars, optimised?)", QUOTING.len()),
             exhaustive: false,
             assumptions: vec!["self-comparison of two rules loaded by the same build, no golden text".into()],
             min_nontrivial: 100,
